@@ -474,22 +474,50 @@ func (t *fieldHandlingTree) setWildcard(wildcard *fieldHandlingTree) error {
 	return cfg.SetChild("**", -1, (*Config)(wildcard))
 }
 
+// fieldHandling returns what is configured for a field of the value being
+// merged: its own handling (ok) and the tree for the settings below it (nil if
+// nothing is configured). What the wildcard '**' configures for the field
+// applies as well ('**' also stands for no component at all) and is united
+// with what is configured for the field directly: "c.l" keeps working below a
+// node matched by "**.c", and a match of the first component of "**.a.b" is
+// not forgotten.
 func (t *fieldHandlingTree) fieldHandling(fieldName string, idx int) (configHandling, *fieldHandlingTree, bool) {
 	child, err := t.child(fieldName, idx)
-	if err == nil {
-		cfgHandling, err := child.configHandling("*", -1)
-		if err == nil {
-			return cfgHandling, child, true
+	if err != nil {
+		child = nil
+	}
+	if wildcard, err := t.wildcard(); err == nil {
+		if wchild, err := wildcard.child(fieldName, idx); err == nil {
+			if child, err = uniteFieldHandling(wchild, child); err != nil {
+				return cfgDefaultHandling, nil, false
+			}
 		}
 	}
-	// try wildcard match
-	wildcard, err := t.wildcard()
+	if child == nil {
+		return cfgDefaultHandling, nil, false
+	}
+	cfgHandling, err := child.configHandling("*", -1)
 	if err != nil {
 		return cfgDefaultHandling, child, false
 	}
-	cfgHandling, cfg, ok := wildcard.fieldHandling(fieldName, idx)
-	if ok {
-		return cfgHandling, cfg, ok
+	return cfgHandling, child, true
+}
+
+// uniteFieldHandling returns a tree configuring what a and b configure (b wins
+// where both configure the same setting). a and b are not modified.
+func uniteFieldHandling(a, b *fieldHandlingTree) (*fieldHandlingTree, error) {
+	if a == nil {
+		return b, nil
 	}
-	return cfgDefaultHandling, child, ok
+	if b == nil {
+		return a, nil
+	}
+	u := newFieldHandlingTree()
+	if err := u.merge((*Config)(a)); err != nil {
+		return nil, err
+	}
+	if err := u.merge((*Config)(b)); err != nil {
+		return nil, err
+	}
+	return u, nil
 }
